@@ -47,6 +47,8 @@ pub struct Cfg {
     pub threads: usize,
     /// 0 = NoMergePolicy, 1 = LogMergePolicy with tiny thresholds
     pub merge_policy: u8,
+    /// stop the history at the first failed API call (used with permanent faults: everything after fails too)
+    pub stop_on_error: bool,
 }
 
 pub fn gen_history(rng: &mut Rng, len: usize, next_id: &mut u64) -> Vec<Op> {
@@ -194,7 +196,7 @@ pub fn run_history(vd: &VerifDirectory, ops: &[Op], cfg: &Cfg, recover_by_rollba
                     let call_seq = vd.log_len();
                     let r = w.commit();
                     if let Ok(opstamp) = &r {
-                        vd.mark("commit_ret");
+                        vd.mark(&format!("commit_ret:{opstamp}"));
                         committed = working.clone();
                         res.commits.push(CommitRec { call_seq, ret_seq: vd.log_len(), opstamp: *opstamp, content: committed.clone() });
                     } else {
@@ -208,7 +210,8 @@ pub fn run_history(vd: &VerifDirectory, ops: &[Op], cfg: &Cfg, recover_by_rollba
                     if obs!(i, "rollback", r) { working = committed.clone(); } else { failed = true; }
                 }
                 Op::MergeAll => {
-                    let ids = index.searchable_segment_ids().unwrap_or_default();
+                    let ids_r = index.searchable_segment_ids();
+                    let ids = match ids_r { Ok(v) => v, Err(e) => { let r: tantivy::Result<()> = Err(e); obs!(i, "list_segments", r); vec![] } };
                     if ids.len() >= 2 {
                         vd.mark("merge_call");
                         let r = w.merge(&ids).wait();
@@ -250,6 +253,7 @@ pub fn run_history(vd: &VerifDirectory, ops: &[Op], cfg: &Cfg, recover_by_rollba
             }
             vd.mark("recovered");
             working = committed.clone();
+            if cfg.stop_on_error { break; }
         }
     }
     if let Some(w) = writer.take() {
@@ -288,10 +292,10 @@ pub fn read_ids(index: &Index) -> Result<BTreeSet<u64>, String> {
 pub enum Ev {
     Create(u64),
     Terminate(u64),
-    MetaWrite(Vec<u64>),
+    MetaWrite(Vec<u64>, u64),
     Delete(u64),
     SyncDir,
-    CommitRet,
+    CommitRet(u64),
 }
 
 pub struct PathIds {
@@ -334,10 +338,10 @@ pub fn to_events(log: &[Event], ids: &mut PathIds) -> (Vec<Ev>, Vec<usize>) {
             OpKind::Delete => Some(Ev::Delete(ids.id(&e.path))),
             OpKind::SyncDir => Some(Ev::SyncDir),
             OpKind::AtomicWrite if e.path == "meta.json" => {
-                let files = meta_files(&e.data).map(|x| x.0).unwrap_or_else(|| vec!["<unparsable meta.json>".to_string()]);
-                Some(Ev::MetaWrite(files.iter().map(|f| ids.id(f)).collect()))
+                let (files, opstamp) = meta_files(&e.data).unwrap_or_else(|| (vec!["<unparsable meta.json>".to_string()], u64::MAX));
+                Some(Ev::MetaWrite(files.iter().map(|f| ids.id(f)).collect(), opstamp))
             }
-            OpKind::Marker if e.path == "commit_ret" => Some(Ev::CommitRet),
+            OpKind::Marker if e.path.starts_with("commit_ret:") => Some(Ev::CommitRet(e.path[11..].parse().unwrap_or(u64::MAX))),
             _ => None,
         };
         if let Some(ev) = ev { evs.push(ev); seqs.push(e.seq); }
@@ -349,10 +353,10 @@ pub fn ev_term(e: &Ev) -> String {
     match e {
         Ev::Create(p) => format!("ECreate {p}"),
         Ev::Terminate(p) => format!("ETerminate {p}"),
-        Ev::MetaWrite(fs) => format!("EMetaWrite {}", crate::coqfmt::ns(fs)),
+        Ev::MetaWrite(fs, o) => format!("EMetaWrite {} {}", crate::coqfmt::ns(fs), o),
         Ev::Delete(p) => format!("EDelete {p}"),
         Ev::SyncDir => "ESyncDir".into(),
-        Ev::CommitRet => "ECommitRet".into(),
+        Ev::CommitRet(o) => format!("ECommitRet {o}"),
     }
 }
 pub fn trace_term(evs: &[Ev]) -> String {
